@@ -1265,6 +1265,9 @@ class Session:
             self.tainted.add(pid_out)
         for v in vs:
             prop = v["prop"]
+            if v["sig"] in getattr(self, "_suppress_sigs", ()):
+                self.probes.hit("sem_fault_variant_same_as_fault_free")
+                continue
             if name in ("replace",) and prop in ("C01", "C04"):
                 prop = "C05"
             extra = None
@@ -1622,6 +1625,7 @@ class Session:
             q0 = int(fault["u"] * n_q) % max(1, n_q)
             step = max(1, n_q // 3)
             qs = sorted({1 + (q0 + j * step) % n_q for j in range(min(3, n_q))})
+            ref_sem_sigs = None
             for q in qs:
                 self.faults[kind + "_planned"] += 1
                 self.solver.begin({q: kind})
@@ -1640,12 +1644,25 @@ class Session:
 
                     r = out2[1][0] if isinstance(out2[1], tuple) else out2[1]
                     if isinstance(r, Procedure) and r is not self.procs[pid]:
+                        # what the FAULT-FREE result of this very call already gets wrong is the call's
+                        # doing (judged below under the plain op name), not the fault's
+                        if ref_sem_sigs is None:
+                            ref_sem_sigs = set()
+                            r_ref = ref[1][0] if (ref[0] == "ret" and isinstance(ref[1], tuple)) else (ref[1] if ref[0] == "ret" else None)
+                            if isinstance(r_ref, Procedure) and r_ref is not self.procs[pid]:
+                                try:
+                                    root = self.root_pid(pid)
+                                    ref_sem_sigs = {v["sig"] for v in self.sem._check(self.procs[root]._loopir_proc, r_ref._loopir_proc, name)}
+                                except Exception:
+                                    ref_sem_sigs = set()
                         tmp = f"_f{len(self.procs)}"
                         self.procs[tmp] = r
                         self.parent[tmp] = pid
+                        self._suppress_sigs = ref_sem_sigs
                         try:
                             self.check_sem(name, pid, tmp, tag=f"[{kind}]")
                         finally:
+                            self._suppress_sigs = set()
                             del self.procs[tmp]
                             del self.parent[tmp]
                 if self.viol is not None:
